@@ -5,7 +5,7 @@ M: init actor (map_addresses_to_id, exec, exec4) executed whole with a symbolic 
 from .common import *
 
 PROPERTY = 'C20'
-CRATES = ['fil_actors_runtime', 'fil_actor_init']
+CRATES = ['fil_actors_runtime', 'fil_actor_init', 'fil_actors_evm_shared', 'fil_actor_evm', 'fil_actor_eam']
 ENGINES = ['M', 'K']
 INITC = 'fil_actor_init'
 
@@ -193,7 +193,8 @@ def props_exec4(E, res):
 
 
 def build(tier):
-    return [Obligation('init.State::map_addresses_to_id[no delegated]', run_map(False), props_map,
+    from . import evm_guards
+    return evm_guards.build_create(tier) + evm_guards.build_eam(tier) + [Obligation('init.State::map_addresses_to_id[no delegated]', run_map(False), props_map,
                        descr='fresh id = next_id, next_id++, stable address newly mapped, nothing else written, invariant preserved', bounds='address map symbolic', max_paths=2000),
             Obligation('init.State::map_addresses_to_id[delegated]', run_map(True), props_map,
                        descr='delegated address: existing id reused or fresh id assigned; stable address must be new', bounds='address map symbolic', max_paths=2000),
